@@ -3,6 +3,7 @@ package sim
 import (
 	"fmt"
 	"os"
+	"runtime"
 	"strings"
 	"sync"
 	"sync/atomic"
@@ -18,6 +19,7 @@ import (
 // Harness state reachable from task goroutines is channel/atomic only.
 
 type Task struct {
+	goid   atomic.Int64 // id of the goroutine running this task (set by the task itself when it starts)
 	ID     int
 	Name   string
 	resume chan struct{}
@@ -63,9 +65,21 @@ func (s *Sched) Go(name string, fn func()) *Task {
 
 // Yield is the hook body: called from library code (through verifhook) and from harness proxies.
 func (s *Sched) Yield(site string) {
-	tk := s.cur.Load()
+	if s.cur.Load() == nil {
+		return // no scheduled phase is running (reference calls)
+	}
+	// Identify the calling task by its goroutine, not by "the task released last": if a task was ever
+	// considered blocked and later runs by itself, two tasks run at once and s.cur names only one.
+	g := curGoid()
+	var tk *Task
+	for _, c := range s.tasks {
+		if c.goid.Load() == g {
+			tk = c
+			break
+		}
+	}
 	if tk == nil {
-		return
+		return // not a task goroutine
 	}
 	if !s.allOn && !s.active[site] {
 		return
@@ -82,6 +96,7 @@ func (s *Sched) Run() {
 		tk := tk
 		s.wg.Add(1)
 		go func() {
+			tk.goid.Store(curGoid())
 			raceDisable()
 			<-tk.resume
 			raceEnable()
@@ -103,7 +118,7 @@ func (s *Sched) Run() {
 		}
 		if len(runnable) == 0 {
 			// everything alive is blocked on a lock nobody can release: wait for any message
-			m, ok := s.recv(30 * time.Second)
+			m, ok := s.recv(90 * time.Second)
 			if !ok {
 				panic("harness: scheduler deadlock (all live tasks blocked)")
 			}
@@ -124,14 +139,23 @@ func (s *Sched) Run() {
 		raceDisable()
 		tk.resume <- struct{}{}
 		raceEnable()
+		waited := time.Duration(0)
 		for {
-			m, ok := s.recv(2 * time.Second)
+			m, ok := s.recv(pollEvery)
 			if !ok {
-				// the released task neither parked nor finished: it is blocked on a real lock
-				tk.blocked = true
-				s.Uncontrolled = true
-				s.Steps = append(s.Steps, fmt.Sprintf("%d@<blocked>", tk.ID))
-				break
+				waited += pollEvery
+				// the released task neither parked nor finished yet: is it blocked on synchronisation
+				// (a real lock held by a parked task), or just still running?
+				if goroutineBlocked(tk.goid.Load()) {
+					tk.blocked = true
+					s.Uncontrolled = true
+					s.Steps = append(s.Steps, fmt.Sprintf("%d@<blocked>", tk.ID))
+					break
+				}
+				if waited > 10*time.Minute {
+					panic("harness: a task ran for 10 minutes without reaching a yield point")
+				}
+				continue
 			}
 			s.handle(m, &live)
 			if m.task == tk {
@@ -177,6 +201,57 @@ func (s *Sched) handle(m parkMsg, live *int) {
 	if len(s.Steps) < s.MaxSteps {
 		s.Steps = append(s.Steps, fmt.Sprintf("%d@%s", m.task.ID, m.site))
 	}
+}
+
+// pollEvery: how often the scheduler looks at the state of a released task that has not reported back.
+const pollEvery = 25 * time.Millisecond
+
+// goroutineBlocked reports whether the goroutine with the given id is waiting on synchronisation
+// (mutex, semaphore, channel, condition variable), as opposed to running or runnable. It reads the
+// runtime's own goroutine states from a full stack dump; it is only consulted when a released task
+// has not reported back for pollEvery, so a slow machine cannot make a running task look blocked.
+func goroutineBlocked(goid int64) bool {
+	buf := make([]byte, 1<<18)
+	for {
+		n := runtime.Stack(buf, true)
+		if n < len(buf) {
+			buf = buf[:n]
+			break
+		}
+		buf = make([]byte, 2*len(buf))
+	}
+	head := fmt.Sprintf("goroutine %d [", goid)
+	i := strings.Index(string(buf), head)
+	if i < 0 {
+		return false
+	}
+	rest := string(buf[i+len(head):])
+	j := strings.IndexAny(rest, "],")
+	if j < 0 {
+		return false
+	}
+	state := rest[:j]
+	switch {
+	case strings.HasPrefix(state, "sync."), state == "semacquire", state == "chan receive", state == "chan send", state == "select",
+		strings.HasPrefix(state, "chan receive"), strings.HasPrefix(state, "chan send"), strings.HasPrefix(state, "select"):
+		return true
+	}
+	return false
+}
+
+// curGoid returns the id of the calling goroutine (parsed from its stack header).
+func curGoid() int64 {
+	var buf [64]byte
+	n := runtime.Stack(buf[:], false)
+	// "goroutine 123 [running]:"
+	var id int64
+	for _, c := range buf[len("goroutine "):n] {
+		if c < '0' || c > '9' {
+			break
+		}
+		id = id*10 + int64(c-'0')
+	}
+	return id
 }
 
 // ---------------------------------------------------------------------------------------
